@@ -7,6 +7,7 @@ import Yaep.Model.Descr
 import Yaep.Model.Earley2
 import Yaep.Model.DefectCodes
 import Yaep.Model.MakeParse
+import Yaep.Model.BuildSet
 /-!
 # The judge: compares the observations of the real library with the model
 
@@ -319,6 +320,29 @@ def judgeParse (cfg : ParseCfg) (cid : String) (o : Op) (hs : HState) (out : Out
       let implToks := ((o.first "pltoks").getD []).map toInt
       let modelToks := rr.pl.map fun s => match s.tok with | some k => Int.ofNat k | none => -1
       out := out.v cid o.n "C07" "D" (implToks == modelToks) s!"token numbers of the parse list: impl={implToks} model={modelToks}"
+  -- deep tie of the set construction itself (Model/BuildSet.lean, proved equal to `buildPL` as sets
+  -- of items: `buildPLC_eq_buildPL`): every set as the C code lays it out -- start situations,
+  -- derived non-start situations (one per parent), initial situations; cores shared by their
+  -- start situations.  Compared as multisets (an item may legitimately occur twice); the order
+  -- inside a set is reported as a statistic only.
+  if la ≤ 1 && (sentence || recOff) && !(o.get "set").isEmpty && n ≤ 80 then
+    let (errC, tabC, plC) := BS.buildPLC g la w
+    let implSeq := (o.get "set").map fun ws => ws.drop 2
+    let modelSeq := (BS.plItems plC).map fun s => s.map itemStr
+    let implBag := implSeq.map sortStrs
+    let modelBag := modelSeq.map sortStrs
+    if errC != err then out := out.s cid s!"MODEL-INCONSISTENT step model error position {errC} vs {err}"
+    out := out.v cid o.n "C01" "D" (implBag == modelBag)
+      (if implBag == modelBag then s!"set construction: situations of {modelBag.length} sets with multiplicity"
+       else s!"set construction differs (situations with multiplicity) model={modelBag} impl={implBag}")
+    out := out.s cid s!"setorder same={implSeq == modelSeq}"
+    match o.first "cnt" with
+    | some ws =>
+      let cores := kvInt ws "cores"; let dists := kvInt ws "dists"; let sets := kvInt ws "sets"
+      let okc := cores == tabC.nCores && dists == tabC.nDists && sets == tabC.nSets
+      out := out.v cid o.n "C18" "D" okc
+        s!"unique cores/distance vectors/sets: impl={cores}/{dists}/{sets} model={tabC.nCores}/{tabC.nDists}/{tabC.nSets}"
+    | none => pure ()
   -- deep tie of the lookahead sets of all items (static at level 1, dynamic at level 2)
   if la ≥ 1 && (sentence || recOff) && !(o.get "la").isEmpty && n ≤ 60 then
     let an := g.analysis
